@@ -106,6 +106,7 @@ def _dqn_common(name, sc, mod, train, extra_kwargs, uses_target, per=False, has_
     if uses_target:
         tgt = nnx.clone(q_net)
         rec.watch_module("q_target", tgt)
+        rec.watch_law("q_target", tgt, q_net, 1.0)
         # scenario B: an update frequency that does not divide the target frequency (2 vs 3)
         uf = sc.get("update_frequency", 2 if sc.get("label") in ("B", "E") else 1)
         kwargs.update(q_target_net=tgt, update_frequency=uf, target_update_frequency=sc.get("target_update_frequency", 3))
@@ -222,6 +223,8 @@ def _ddpg_like(name, sc, train, double_q, extra, lap=False):
     logger = recording_logger(rec)
     for k, v in dict(policy=policy, q=q, policy_target=ptgt, q_target=qtgt).items():
         rec.watch_module(k, v)
+    rec.watch_law("policy_target", ptgt, policy, 0.25)
+    rec.watch_law("q_target", qtgt, q, 0.25)
     _PROBE["fn"] = obs_probe(rec)
     kwargs = dict(seed=sc["seed"], total_timesteps=sc["budget"], gamma=0.5, tau=0.25, batch_size=sc["batch"], learning_starts=sc["warm"],
                   replay_buffer=buf, policy_target=ptgt, q_target=qtgt, logger=logger, global_step=sc.get("start", 0), progress_bar=False)
